@@ -86,11 +86,14 @@ impl<F: NttFriendlyFieldElement, S: ParallelSumGadget<F, Mul>> L1BoundSum<F, S> 
         // Number of bits needed to represent each value.
         let bits = max_value.checked_ilog2().unwrap() as usize + 1;
 
-        let measurement_len_in_bits = bits.checked_mul(measurement_len + 1).ok_or_else(|| {
-            FlpError::InvalidParameter(
-                "bits*(measurement_len+1) overflows addressable memory".into(),
-            )
-        })?;
+        let measurement_len_in_bits = measurement_len
+            .checked_add(1)
+            .and_then(|len| bits.checked_mul(len))
+            .ok_or_else(|| {
+                FlpError::InvalidParameter(
+                    "bits*(measurement_len+1) overflows addressable memory".into(),
+                )
+            })?;
 
         let last_weight = max_value - ((F::Integer::one() << (bits - 1)) - F::Integer::one());
         let last_weight_field = F::from(last_weight);
